@@ -271,7 +271,19 @@ impl AnalyzeExpression for Expression {
             Self::IntLiteral(_) => Some(DataType::Int),
             Self::Variable(v) => v.analyze(table),
             Self::Binary(b) => b.analyze(table),
-            Self::Unary(u) => u.expr.analyze(table),
+            Self::Unary(u) => {
+                // the only unary operator is the arithmetic negation
+                match u.expr.analyze(table) {
+                    Some(DataType::Int) | None => { /* happy path or error already reported */ }
+                    Some(_) => {
+                        u.info.append_error(SplError(
+                            u.to_range(),
+                            SemanticErrorMessage::ArithmeticOperatorNonInteger.into(),
+                        ));
+                    }
+                }
+                Some(DataType::Int)
+            }
             Self::Bracketed(b) => b.expr.analyze(table),
             Self::Error(_) => None,
         }
